@@ -628,6 +628,9 @@ func c15CaseRecords(c *Case, nf int) []*c15Rec {
 }
 
 func c15Run(c *Case) (out string, fails []Fail) {
+	if c.Kind == 2 {
+		return c15RunClean(c) // util.CleanUTF8 alone, see c15_utf8.go
+	}
 	if (c.Kind != 0 && c.Kind != 1) || len(c.S) < 2 {
 		return "badprog", nil
 	}
